@@ -211,6 +211,27 @@ pub fn catch<T>(f: impl FnOnce() -> T) -> Result<T, String> {
     })
 }
 
+static CURRENT_FILE: std::sync::OnceLock<String> = std::sync::OnceLock::new();
+
+/// where the case that is about to be executed gets recorded (so that a crash / abort of the whole
+/// process can be attributed to its input by ./check)
+pub fn set_current_file(path: String) {
+    let _ = CURRENT_FILE.set(path);
+}
+
+pub fn note_current(desc: &str) {
+    if let Some(p) = CURRENT_FILE.get() {
+        let d: String = desc.chars().take(1500).collect();
+        let _ = std::fs::write(p, d);
+    }
+}
+
+pub fn clear_current() {
+    if let Some(p) = CURRENT_FILE.get() {
+        let _ = std::fs::remove_file(p);
+    }
+}
+
 pub fn silence_panics() {
     std::panic::set_hook(Box::new(|_| {}));
 }
